@@ -659,7 +659,11 @@ func (it *Interp) checkView(fr *frame, p Ptr, to *TInfo) {
 	need := to.elem.size
 	have := p.obj.size - p.off
 	if need > have {
-		it.event(fr, "unsafe-widening", fmt.Sprintf("*%s (%d bytes) viewing %d bytes of %s", to.elem.name, need, have, p.obj.what))
+		fn := "?"
+		if fr != nil {
+			fn = fr.cf.fn.Name()
+		}
+		it.event(fr, "unsafe-widening/"+shortType(to.elem.name)+"/in-"+fn, fmt.Sprintf("*%s (%d bytes) viewing %d bytes of %s", to.elem.name, need, have, p.obj.what))
 	}
 }
 
